@@ -285,11 +285,23 @@ func PatchLinker(goRoot, goVersion, cacheDir, tempDir string) (string, func(), e
 	if err != nil {
 		return "", nil, err
 	}
+	// Build into a temporary file and rename it into place, rather than letting
+	// "go build" write to the cached path. If a previous build was killed while
+	// cmd/go was copying its output there, the truncated file still carries its
+	// build ID, so cmd/go would consider it up to date and leave it alone.
+	// The temporary file is removed first for the same reason.
+	tmpLinkPath := outputLinkPath + ".tmp"
+	if err := os.Remove(tmpLinkPath); err != nil && !os.IsNotExist(err) {
+		return "", nil, err
+	}
 	verifEvent("link-build-start")
-	if err := buildLinker(goRoot, workingDir, overlay, outputLinkPath); err != nil {
+	if err := buildLinker(goRoot, workingDir, overlay, tmpLinkPath); err != nil {
 		return "", nil, err
 	}
 	verifEvent("link-build-done")
+	if err := os.Rename(tmpLinkPath, outputLinkPath); err != nil {
+		return "", nil, err
+	}
 	if err := writeVersion(outputLinkPath, goVersion, patchesVer); err != nil {
 		return "", nil, err
 	}
